@@ -161,6 +161,11 @@ def val_json(v):
     return ["int", int(v)]
 
 
+# A handler with nothing to emit returns this one module-level list (a common idiom: `return NO_EVENTS`).
+# The engine must treat a returned list as read-only; if it appends to it, later returns re-deliver.
+NO_EVENTS: list = []
+
+
 def build_world(script):
     from happysimulator.core.entity import Entity
     from happysimulator.core.event import Event
@@ -169,6 +174,7 @@ def build_world(script):
 
     script = dict({"pre": [], "start": 0, "end": None, "fuel": 100}, **script)
     w = World(script)
+    del NO_EVENTS[:]                  # (an engine that appended to it must not leak into the next case)
     w.keep = []
     sim_clock = [None]
     w.sim_clock = sim_clock
@@ -239,6 +245,8 @@ def build_world(script):
                         do_eff(a[1])
                 if len(out) == 1 and beh[1] and beh[1][0][0] == "emit" and len(beh[1]) == 1:
                     return out[0]            # single Event return form
+                if not out and self.idx % 2 == 0:
+                    return NO_EVENTS         # shared "no events" constant
                 return out
             pid = w.next_pid
             w.next_pid += 1
@@ -270,6 +278,8 @@ def build_world(script):
             yield from self._steps(pid, steps)
             out = [mk_event(self.now.nanoseconds, e) for e in ret]
             w.ulog.append(["finish", self.now.nanoseconds, pid, self.idx])
+            if not out and self.idx % 2 == 0:
+                return NO_EVENTS
             return out
 
     for i, table in enumerate(script["prog"]):
